@@ -158,6 +158,23 @@ func explore(ld *loaded, u *Unit, tc *TierCfg, seed int64, smtlog string) *UnitR
 	if cfg.Params == nil {
 		cfg.Params = map[string]int{}
 	}
+	stopProgress := make(chan struct{})
+	go func() {
+		tk := time.NewTicker(20 * time.Second)
+		defer tk.Stop()
+		for {
+			select {
+			case <-stopProgress:
+				return
+			case <-tk.C:
+				mu.Lock()
+				q.mu.Lock()
+				fmt.Fprintf(os.Stderr, "  [progress %s] paths=%d queued=%d counterexamples=%d steps=%d\n", u.Name, res.Paths, len(q.items), len(res.Viols), res.Steps)
+				q.mu.Unlock()
+				mu.Unlock()
+			}
+		}
+	}()
 	for w := 0; w < workers; w++ {
 		wg.Add(1)
 		go func(w int) {
@@ -295,6 +312,7 @@ func explore(ld *loaded, u *Unit, tc *TierCfg, seed int64, smtlog string) *UnitR
 		}(w)
 	}
 	wg.Wait()
+	close(stopProgress)
 	res.ExploreS = time.Since(t1).Seconds()
 	sort.Slice(res.Viols, func(i, j int) bool { return fmt.Sprint(res.Viols[i].Path) < fmt.Sprint(res.Viols[j].Path) })
 	return res
